@@ -2,6 +2,7 @@ import einx._src.tracer as tracer
 import numpy as np
 from collections import defaultdict
 import itertools
+import json
 import keyword
 from einx._src.util import pytree
 
@@ -449,7 +450,11 @@ def compile(object, return_code=False):
             return code[x]
         elif isinstance(x, str):
             # ################## str ##################
-            return Literal(f'"{x}"', block=code.root_block)
+            # Double-quoted literal with quotes, backslashes, newlines and non-ascii characters escaped
+            return Literal(json.dumps(x), block=code.root_block)
+        elif isinstance(x, float | np.floating) and not np.isfinite(x):
+            # ################## nan, inf ##################
+            return Literal(f'float("{float(x)}")', block=code.root_block)
         elif isinstance(x, int | float | np.integer | np.floating | bool):
             # ################## Numeric ##################
             return Literal(str(x), block=code.root_block)
